@@ -1355,7 +1355,7 @@ def check_all_containers(run, site, links=True):
                                 check_linklist(run, ow, attr, tk, site)
 
 
-def check_ids_unique(run, site):
+def check_ids_unique(run, site, compare_model=True):
     for fs in run.files.values():
         if fs.real is None:
             continue
@@ -1373,7 +1373,7 @@ def check_ids_unique(run, site):
             if not UUID_RE.match(str(i)):
                 run.violation("id_unique", site, "id_format", "%s id %r" % (path, i))
         want = set(m.id for m in fs.model.all_entities())
-        if set(seen) != want:
+        if compare_model and set(seen) != want:
             run.violation("id_unique", site, "id_changed", "ids in file differ from ids recorded at creation: "
                           "%r" % sorted(set(seen) ^ want)[:4])
 
